@@ -22,7 +22,8 @@ LEVEL_TEXT = ("Operation sequences over {create, get, update, delete, cleanup(ma
               ' The id monitor also re-seeds the random module between draws.'
               ' Also an initialize without an id.'
               ' Every case also runs under the dependency-free validation backend.'
-              ' Also requests in flight on a session while the expiry sweep runs, under both validation backends.')
+              ' Also requests in flight on a session while the expiry sweep runs, under both validation backends.'
+              ' Also client info carrying newer schema members and vendor extensions.')
 LEVEL_NOTE = ("Trusted: the reference model (30 lines) and the clock patch on chuk_mcp.server.session.memory.time. "
               "Only the in-memory manager shipped with the library is exercised.")
 RULE = ("sequence of operations; non-trivial = contains at least one creating op followed by another op; distinct = "
